@@ -424,7 +424,12 @@ func runC05(r *Run) {
 	c05Primitives(r)
 }
 
-func runC04(r *Run) { accHistories(r, true) }
+func runC04(r *Run) {
+	accHistories(r, true)
+	// membership as consensus uses it: what becomes a live leaf when outputs are created and spent within one
+	// block, and which leaves later blocks accept (generated chains, every block recomputed by the ledger model)
+	runLedger(r, "C04")
+}
 
 // leaf hash and proofRoot on their own (index bit patterns beyond what histories reach)
 func c05Primitives(r *Run) {
